@@ -15,6 +15,7 @@ from job_shop_lib.reinforcement_learning import (
 )
 
 from .. import gen, obs
+from .. import fingerprint as fp
 from ..lib import build_filter, build_instance
 
 ID = "C18"
@@ -33,7 +34,7 @@ RULE = (
     "edge_index equals the multiset of current graph edges (no -1 column "
     "before a real one), feature matrices equal the composite observer's; "
     "padding only at the end with the declared fill (True / -1); done == "
-    "schedule.is_complete(), truncated is False; every legal (job, machine) "
+    "schedule.is_complete(), truncated is False; a step puts the job's next operation on the machine named in the decision; every legal (job, machine) "
     "and (job, -1) is in action_space. Multi env after EVERY reset: inner "
     "env's updater class and flags, reward class, filter, padding flag, "
     "render mode and feature column names equal the constructor's; instance "
@@ -282,8 +283,20 @@ def run_episodes(ctx, case, env, get_inner, multi, after_reset):
                 check_mirror(ctx, env, ob_o, f"episode {ep} step {k}: original env after its deep copy stepped")
                 ctx.count("env_deepcopies")
             act = legal_action(inner, a >> 1, b, a & 1, ctx)
+            op_chosen = inner.dispatcher.instance.jobs[act[0]][inner.dispatcher.job_next_operation_index[act[0]]]
+            machine_chosen = act[1] if act[1] != -1 else op_chosen.machines[0]
             ob, reward, done, truncated, info = env.step(act)
             where = f"episode {ep} step {k} action {act}"
+            # the documented meaning of a decision: "the job ID and the machine
+            # ID in which to schedule the operation"
+            row = inner.dispatcher.schedule.schedule[machine_chosen]
+            ctx.check(
+                bool(row) and fp.jp(row[-1].operation) == fp.jp(op_chosen),
+                "decision-not-executed",
+                f"{where}: the job's next operation {fp.jp(op_chosen)} (eligible on {list(op_chosen.machines)}) is not the last "
+                f"operation on machine {machine_chosen}; machine rows end with "
+                f"{[(fp.jp(r[-1].operation) if r else None) for r in inner.dispatcher.schedule.schedule]}",
+            )
             ctx.check(done is inner.dispatcher.schedule.is_complete() or done == inner.dispatcher.schedule.is_complete(), "done-flag", f"{where}: done={done!r}")
             ctx.check(done == (k == n - 1), "done-flag", f"{where}: done={done!r} after {k + 1}/{n} dispatches")
             ctx.check(truncated is False, "truncated", f"{where}: truncated={truncated!r}")
